@@ -17,6 +17,12 @@ def spec(th, seed):
         units.append(U('C11_constants.clang', 'mon/C11_constants.cpp', 'clang', libs=LIBS))
         units.append(U('C11_common.O0', 'mon/C11_common.cpp', 'plainO0', scale=0.05, args=['--x-stride', '61']))
         units.append(U('C11_vec4.clang-sse2', 'mon/C11_vec4.cpp', 'clang', defs=SIMD_SSE2, scale=0.3))
+    # constant-argument supplement (mon/constarg.cpp): scalar arguments as compile-time constants vs the same values read from volatiles; results must be bitwise identical
+    units.append(U('C11_constarg', 'mon/constarg.cpp', 'plain', defs=['-DCONST_PROP=11']))
+    if th:
+        units.append(U('C11_constarg.clang', 'mon/constarg.cpp', 'clang', defs=['-DCONST_PROP=11']))
+        units.append(U('C11_constarg.O3', 'mon/constarg.cpp', 'plainO3', defs=['-DCONST_PROP=11']))
+        units.append(U('C11_constarg.O1', 'mon/constarg.cpp', 'plainO1', defs=['-DCONST_PROP=11']))
     return {
         'units': units,
         'exhaustive': False,
